@@ -301,6 +301,14 @@ func (w *rfWorld) refCb(h *rfHolder) func(bool, *rfVal, error) {
 		} else {
 			h.val.Store(nil)
 		}
+		if resolved && err == nil && h.id%7 == 3 && !w.sameValue && h.cbCount.Load() == 1 {
+			// a reference callback may invalidate the value it was just told about: released() is documented to be
+			// callable from anywhere, also from inside a callback that runs under the container's lock
+			if g := w.genOf(v); g != nil && g.released != nil && g.invalid.CompareAndSwap(0, w.c.Stamp()) {
+				w.c.Count("released_from_inside_callback", 1)
+				g.released()
+			}
+		}
 	}
 }
 
